@@ -111,7 +111,7 @@ func runParse(ty int, in []byte) (r intRes) {
 		// a value too large to print (cases whose exact value is that large are not generated):
 		// keep the class, replace the value by a marker of the same sign
 		if r.cls == 0 && r.val.BitLen() > 1<<17 {
-			r.val = new(big.Int).Lsh(big.NewInt(int64(r.val.Sign())), 1<<17)
+			r.val = new(big.Int).Lsh(big.NewInt(int64(r.val.Sign())), 300)
 		}
 	}()
 	switch ty {
